@@ -439,6 +439,87 @@ fn g5_name_pairs(rep: &mut Report) -> u64 {
     jobs.len() as u64
 }
 
+/// G6: a catalog string of the new table (its name, a column's name) is
+/// already referenced by row data close to the per-entry reference limit, so
+/// that the references made while the table is created spill into a second
+/// pool entry; and the same under a database code page in which the attribute
+/// text is or is not representable.
+fn g6_saturated_and_encoded(rep: &mut Report) -> u64 {
+    use crate::val::Val;
+    let cols = vec![
+        ColSpec::new("K", Ty::I16).key(),
+        ColSpec::new("Cc", Ty::Str(8)).nullable().category("Identifier").enums(&["a", "b"]),
+        ColSpec::new("N", Ty::I32).nullable().range(-5, 5),
+    ];
+    let mut jobs: Vec<(String, Vec<Op>, Vec<ColSpec>)> = Vec::new();
+    for uses in [65530usize, 65532, 65533, 65534, 65535] {
+        for text in ["Cc", "Tt", "Identifier", "a;b"] {
+            let rows: Vec<Vec<Val>> = (1..=uses as i32).map(|k| vec![Val::Int(k), Val::s(text)]).collect();
+            let setup = vec![Op::CreateTable { name: "D".into(), cols: vec![ColSpec::new("K", Ty::I32).key(), ColSpec::new("V", Ty::Str(0)).nullable()] }, Op::Insert { table: "D".into(), rows }];
+            jobs.push((format!("saturated:{}-uses-of-{:?}", uses, text), setup, cols.clone()));
+        }
+    }
+    // attribute text in a database code page that can represent it
+    let e9 = vec![ColSpec::new("K", Ty::I16).key(), ColSpec::new("Cc", Ty::Str(8)).nullable().enums(&["\u{e9}t\u{e9}", "b"])];
+    jobs.push(("code-page-1252:representable-enum".into(), vec![Op::SetDbCodepage(1252)], e9.clone()));
+    jobs.push(("code-page-932:representable-enum".into(), vec![Op::SetDbCodepage(932)], vec![ColSpec::new("K", Ty::I16).key(), ColSpec::new("Cc", Ty::Str(8)).nullable().enums(&["\u{3042}", "b"])]));
+    // ... and in one that cannot: refused or preserved, never silently altered
+    jobs.push(("code-page-1252:unrepresentable-enum".into(), vec![Op::SetDbCodepage(1252)], vec![ColSpec::new("K", Ty::I16).key(), ColSpec::new("Cc", Ty::Str(8)).nullable().enums(&["\u{3b1}", "\u{3b2}"])]));
+    jobs.push(("code-page-932:unrepresentable-enum".into(), vec![Op::SetDbCodepage(932)], vec![ColSpec::new("K", Ty::I16).key(), ColSpec::new("Cc", Ty::Str(8)).nullable().enums(&["\u{e9}", "b"])]));
+    let results: Vec<Vec<V>> = jobs
+        .par_iter()
+        .map(|(label, setup, cols)| {
+            let mut out: Vec<V> = Vec::new();
+            let group = label.split(':').next().unwrap_or("g6").to_string();
+            let mut h = Harness::create(0).expect("create");
+            for op in setup {
+                if !h.apply(op).is_ok() {
+                    return vec![("machinery:g6-setup".into(), format!("{}: {}", label, op.show()))];
+                }
+            }
+            let observe = |h: &mut Harness| -> Result<Vec<ColSpec>, String> {
+                crate::report::catch(|| {
+                    let p = h.p();
+                    p.get_table("Tt").map(|t| t.columns().iter().map(ColSpec::observed).collect::<Vec<ColSpec>>())
+                })
+                .and_then(|o| o.ok_or_else(|| "table not listed".to_string()))
+            };
+            match h.apply(&Op::CreateTable { name: "Tt".into(), cols: cols.clone() }) {
+                Outcome::Panic(p) => return vec![(format!("g6:{}:panic:{}", group, crate::report::panic_site(&p)), format!("{}: create_table panicked: {}", label, p))],
+                Outcome::Err(_) => return out, // refusing is allowed (atomicity is C04's)
+                Outcome::Ok => {}
+            }
+            match observe(&mut h) {
+                Err(e) => out.push((format!("g6:{}:not-observable", group), format!("{}: {}", label, e))),
+                Ok(got) => {
+                    if let Some(d) = first_diff(cols, &got) {
+                        out.push((format!("g6:{}:altered-immediately:{}", label.split('-').next().unwrap_or(""), d.2), format!("{}: accepted {} but it is reported as {}", label, d.0, d.1)));
+                    }
+                }
+            }
+            match h.close_into_inner().and_then(Harness::open) {
+                Err(e) => out.push((format!("g6:{}:reopen-fails", label), format!("{}: {}", label, e))),
+                Ok(mut h2) => match observe(&mut h2) {
+                    Err(e) => out.push((format!("g6:{}:not-observable-after-reopen", label), e)),
+                    Ok(got) => {
+                        if let Some(d) = first_diff(cols, &got) {
+                            let class: String = if label.starts_with("saturated") { "saturated".into() } else { label.clone() };
+                            out.push((format!("g6:{}:altered-after-reopen:{}", class, d.2), format!("{}: accepted {} but after reopen it is {}", label, d.0, d.1)));
+                        }
+                    }
+                },
+            }
+            out
+        })
+        .collect();
+    for vs in results {
+        for (sig, d) in vs {
+            rep.violation(sig, d.clone(), json!({"kind":"c06-g6","detail":d}));
+        }
+    }
+    jobs.len() as u64
+}
+
 pub fn run(tier: Tier) -> i32 {
     let mut rep = Report::new("C06", tier, "model_checking");
     rep.assume("a column's stored form is two independent records (type word in _Columns; one _Validation row), so the product is factored: G1 = every string width x 8 flag combinations x 3 categories, G2 = ranges x categories x enum lists x foreign keys x nullable x type, G3 = column lists and names");
@@ -477,8 +558,10 @@ pub fn run(tier: Tier) -> i32 {
     rep.set("g4_create_after_history", n4);
     let n5 = g5_name_pairs(&mut rep);
     rep.set("g5_colliding_name_pairs", n5);
+    let n6 = g6_saturated_and_encoded(&mut rep);
+    rep.set("g6_saturated_strings_and_code_pages", n6);
     rep.set("exhaustive", true);
-    rep.set("rule", "G5: pairs of tables whose table and column names run into each other under concatenation with the separators '.', '_', '', '__', '..' (and swapped / case-only / prefix pairs), created in both orders, saved three ways, reopened, one of them dropped. G4: the same create_table after every history of <= 4 steps over {create T, create U, drop T, drop U, reopen, drop+reopen, flush, insert}, then saved three ways and reopened. G1-G3: each case = one create_table on a fresh package; accepted: all attribute getters equal the request immediately and after save + reopen (foreign key via the decoder); refused: package identical to a fresh one. G1: every string width in the tier's set (thorough: all 0..=65535) x {nullable,key,localizable} x {none,Text,Binary}, both integer types; G2: 7 ranges x 27 categories x 10 enum lists x 6 foreign keys x nullable x 3 types; G3: every column count 1..33 with the key first/middle/last, no key, duplicate names, column and table names of every length 1..66. distinct_nontrivial = tables accepted and round-tripped");
+    rep.set("rule", "G6: create_table when its name / a column name / a category / an enum list is already referenced 65530..65535 times by row data (the references made by the call spill into a second pool entry), and with enum values under database code pages 1252 and 932 that can / cannot represent them. G5: pairs of tables whose table and column names run into each other under concatenation with the separators '.', '_', '', '__', '..' (and swapped / case-only / prefix pairs), created in both orders, saved three ways, reopened, one of them dropped. G4: the same create_table after every history of <= 4 steps over {create T, create U, drop T, drop U, reopen, drop+reopen, flush, insert}, then saved three ways and reopened. G1-G3: each case = one create_table on a fresh package; accepted: all attribute getters equal the request immediately and after save + reopen (foreign key via the decoder); refused: package identical to a fresh one. G1: every string width in the tier's set (thorough: all 0..=65535) x {nullable,key,localizable} x {none,Text,Binary}, both integer types; G2: 7 ranges x 27 categories x 10 enum lists x 6 foreign keys x nullable x 3 types; G3: every column count 1..33 with the key first/middle/last, no key, duplicate names, column and table names of every length 1..66. distinct_nontrivial = tables accepted and round-tripped");
     rep.sample(json!({"group": cases[0].group, "class": cases[0].class, "columns": cases[0].cols.len()}));
     rep.sample(json!({"group": cases[n1 + 5].group, "class": cases[n1 + 5].class, "first_column": cases[n1 + 5].cols[1]}));
     rep.finish()
